@@ -266,6 +266,22 @@ pub fn run(ctx: &Ctx) -> i32 {
                     }
                     i += step;
                 }
+                // a fault in the MIDDLE of one logical write: a short accept directly followed by the fault (the sink recovers
+                // afterwards), and a device that fills up after `total` bytes (and stays full)
+                let mut i = (ci + ctx.seed as usize) % step;
+                while i < w {
+                    let k = &kinds[(i + fe + 1) % kinds.len()];
+                    inject(case, fe, None, Policy::ShortThenFail(i, if i % 2 == 0 { Fault::Zero } else { k.clone() }), &clean, d.as_ref(), ev);
+                    ev.count("fault:in-the-middle-of-a-logical-write");
+                    i += step;
+                }
+                let cstep = (clean.len() / 60).max(1);
+                let mut total = (ci + fe) % cstep;
+                while total < clean.len() {
+                    inject(case, fe, None, Policy::Capacity { total, chunk: [usize::MAX, 5, 1][(total / cstep) % 3], fault: if (total / cstep) % 2 == 0 { Fault::Zero } else { Fault::Err(ErrorKind::Other) } }, &clean, d.as_ref(), ev);
+                    ev.count("fault:device-full");
+                    total += cstep;
+                }
                 for k in [ErrorKind::Other, ErrorKind::BrokenPipe].iter() {
                     inject(case, fe, None, Policy::FailFlush(*k), &clean, d.as_ref(), ev);
                 }
@@ -302,7 +318,7 @@ pub fn run(ctx: &Ctx) -> i32 {
         ev,
         Spec {
             level: "fault_enumeration",
-            rule: "one evaluation = one complete builder session (new, inserts, into_inner) on a sink that fails exactly once: at write call i (error return of several kinds - also io::Errors whose payload is a structured error of another component, e.g. an fst ordering error reported by a sink that feeds a second builder - or a zero-length accept) or at the final flush (also: a flush that returns Interrupted 1, 3 or 50 times - then 'finished' requires that some flush finally succeeded); the sink log records which builder call was in progress; that call must return Err(Error::Io) - not Ok, not another error, not a panic - and no call after the header may have been reported Ok beyond it; sessions whose fault index lies past the last write must finish with every byte delivered and flushed; fault positions: EVERY write call index of the clean run (quick: <=400 evenly spaced when there are more) for each input x front ends {raw insert, MapBuilder, SetBuilder, raw add with a type} x {single inserts, one extend_iter / extend_stream call} x {into_inner, finish}; the same through BufWriter(16|64|8192) where the fault surfaces when the buffer drains; non-trivial = every session; distinct = (input, front end, fault position/kind), distinct by construction",
+            rule: "one evaluation = one complete builder session (new, inserts, into_inner) on a sink that fails: once at write call i - at the start of a logical write or in its middle, i.e. directly after a short accept - or permanently once a device of limited capacity is full; (error return of several kinds - also io::Errors whose payload is a structured error of another component, e.g. an fst ordering error reported by a sink that feeds a second builder - or a zero-length accept) or at the final flush (also: a flush that returns Interrupted 1, 3 or 50 times - then 'finished' requires that some flush finally succeeded); the sink log records which builder call was in progress; that call must return Err(Error::Io) - not Ok, not another error, not a panic - and no call after the header may have been reported Ok beyond it; sessions whose fault index lies past the last write must finish with every byte delivered and flushed; fault positions: EVERY write call index of the clean run (quick: <=400 evenly spaced when there are more) for each input x front ends {raw insert, MapBuilder, SetBuilder, raw add with a type} x {single inserts, one extend_iter / extend_stream call} x {into_inner, finish}; the same through BufWriter(16|64|8192) where the fault surfaces when the buffer drains; non-trivial = every session; distinct = (input, front end, fault position/kind), distinct by construction",
             assumptions: vec!["ErrorKind::Interrupted is a retry request, not a failure (C07 covers it)".into(), "behaviour of a builder AFTER it returned an I/O error is not judged".into()],
             floors: vec![
                 // which emission site a fault hits depends on how the builder groups its writes: the site:* classes are
@@ -312,6 +328,8 @@ pub fn run(ctx: &Ctx) -> i32 {
                 ("fault:zero-length-write", 100),
                 ("fault:error-return", 100),
                 ("fault:error-return-with-structured-payload", 100),
+                ("fault:in-the-middle-of-a-logical-write", 1000),
+                ("fault:device-full", 1000),
                 ("runs-without-fault-reached", 10),
                 ("bufwriter-series", 10),
             ],
